@@ -249,6 +249,8 @@ func (e *Env) Close() {
 	}
 	if e.Cl != nil {
 		e.Cl.Close()
+		// the environment stays listed for Cleanup: drop what the fake nodes recorded
+		e.Cl.ForgetRequests()
 	}
 }
 
